@@ -49,9 +49,9 @@ def build(chk):
         elif iters == 256:
             exits = sorted({0, 1, 2, 15, 16, 17, 127, 128, 254, 255} | {rng.randrange(256) for _ in range(4 if quick else 40)}) + ["none"]
         else:
-            exits = (sorted({1, 256, 65535}) if quick else sorted({0, 1, 255, 256, 257, 32767, 32768, 65534, 65535} | {rng.randrange(65536) for _ in range(6)})) + ["none"]
+            exits = ([256] if quick else sorted({0, 1, 255, 256, 257, 32767, 32768, 65534, 65535} | {rng.randrange(65536) for _ in range(6)})) + ["none"]
         for ex in exits:
-            for mode in ("exit", "panic_after"):
+            for mode in (("exit",) if (quick and w == 4) else ("exit", "panic_after")):
                 ftext, ctxty = body(w, mode)
                 if ex == "none":
                     if w <= 2:
